@@ -52,13 +52,14 @@ META = dict(
          "write / addressof of plain globals in API / in-line / out-of-line mode and read / write of a global that is "
          "really `errno`.  Scheduler families (counters pairs / triples / audit-pairs / quadruples): all programs of "
          "length <= 2 over the first 17 operations (3 threads: length 1), every pair of single operations of the whole "
-         "43-operation alphabet and all 3-operation pairs over a 10+10 subset of it (audit-pairs; quick: 8 x 8 single "
+         "43-operation alphabet and all 3-operation pairs over a 6+6 subset of it (audit-pairs; quick: 8 x 8 single "
          "operations), 4 threads with one operation each; all combinations, all schedules; a bystander thread (the "
          "controller) keeps its own errno throughout.  Chain families (counters chain:op-singles, chain:op-pairs, "
          "chain:callback-bodies, chain:callback-depth3, chain:front-ends-values; identical in both tiers): every "
          "operation and every ordered pair of operations, every callback body of length <= 2 for every callback "
          "mechanism x {via C helper, direct call, C-created thread}, front end x front end x value.  "
-         "Thorough is expected to take about 6 minutes on the idle machine.",
+         "The thorough tier is about 1.1 million executions (30 x the quick tier; measured 113 min with a 10+10 "
+         "audit-pairs subset on the machine under a load average of 80, i.e. with a fifth of a core per worker).",
     note="switch points are operation boundaries and callback bodies (other threads are parked on semaphores, so "
          "releasing the GIL inside a C call cannot switch elsewhere); real OS threads, so thread-local storage is real; "
          "bodies run in a C-created thread have no switch point (the thread is unknown to the scheduler; its creator "
@@ -828,8 +829,10 @@ def sched_families(quick):
         n = len(alphabet(0))
         newpairs = [(a, b) for i, a in enumerate(programs(0, 1, range(n))) for j, b in enumerate(programs(1, 1, range(n)))
                     if i >= N_OLD or j >= N_OLD]
-        S0 = [0, 2, 18, 22, 25, 27, 28, 29, 31, 39]
-        S1 = [1, 7, 17, 19, 21, 26, 28, 30, 32, 33]
+        # (measured: the 10 + 10 subset first used here cost 2000 combinations / ~280 k executions, a third of
+        # the whole thorough tier; 6 + 6 keeps every new kind of operation on at least one side)
+        S0 = [2, 22, 25, 27, 29, 31]
+        S1 = [1, 19, 21, 26, 28, 32]
         newpairs += [(a, b) for a in programs(0, 2, S0) for b in programs(1, 2, S1) if len(a) + len(b) == 3]
         q = [0, 1, 2, 7]
         quads = [(a, b, c, d) for a in programs(0, 1, q) for b in programs(1, 1, q) for c in programs(2, 1, [2, 7])
